@@ -63,7 +63,7 @@ std::string run_foreach(std::string const& T, std::ptrdiff_t w, std::ptrdiff_t h
 
 int main() {
     return hv::run([](std::string const& line) -> std::string {
-        auto a = hv::words(line);
+        auto a = op_words(line);
         if (a.size() == 10 && a[0] == "fill") {
             std::string T = a[1], P = a[2]; std::ptrdiff_t w = hv::to_ll(a[3]), h = hv::to_ll(a[4]); uint64_t s = hv::to_ull(a[5]);
             uint64_t c[4] = { hv::to_ull(a[6]), hv::to_ull(a[7]), hv::to_ull(a[8]), hv::to_ull(a[9]) };
@@ -73,6 +73,9 @@ int main() {
             if (P == "rgba8") return run_fill<gil::rgba8_image_t>(T, w, h, s, c);
             if (P == "rgb16") return run_fill<gil::rgb16_image_t>(T, w, h, s, c);
             if (P == "g1")    return run_fill<g1_image_t>(T, w, h, s, c);
+            if (P == "g16")   return run_fill<gil::gray16_image_t>(T, w, h, s, c);
+            if (P == "argb8") return run_fill<gil::argb8_image_t>(T, w, h, s, c);
+            if (P == "cmyk8") return run_fill<gil::cmyk8_image_t>(T, w, h, s, c);
             return "bad-op";
         }
         if (a.size() == 5 && a[0] == "foreach") return run_foreach(a[1], hv::to_ll(a[2]), hv::to_ll(a[3]), hv::to_ull(a[4]));
